@@ -102,3 +102,23 @@ pub fn write_lines<I: Iterator<Item = String>>(path: &str, lines: I) {
     }
     w.flush().unwrap();
 }
+
+/// order-preserving parallel map whose results are written chunk by chunk (bounded memory for large runs)
+pub fn par_map_write<J, F>(jobs: Vec<J>, threads: usize, path: &str, chunk: usize, f: F)
+where
+    J: Sync + Clone,
+    F: Fn(&J) -> Vec<String> + Sync,
+{
+    let file = std::fs::File::create(path).expect("cannot create output");
+    let mut w = std::io::BufWriter::new(file);
+    for c in jobs.chunks(chunk.max(1)) {
+        let res = par_map(c.to_vec(), threads, &f);
+        for lines in res {
+            for l in lines {
+                w.write_all(l.as_bytes()).unwrap();
+                w.write_all(b"\n").unwrap();
+            }
+        }
+    }
+    w.flush().unwrap();
+}
